@@ -33,6 +33,12 @@ CLAIMED = {
         "",
         "DESIGN.md §6 C15",
     ),
+    "C16": (
+        "Lean 4 theorems (prefix = path specification; depth-list parser recovers the shape; decide over the regenerated connector table) + differential correspondence on text",
+        "Theorems in lean/Nutree/Properties/C16.lean: format lines = one per node in pre-order with the documented prefix; under uniform segment widths the prefixes determine the shape; every style of the CONNECTORS table (regenerated from common.py on every run) has uniform widths and valid arity by `decide`. Tie: text equality of format() output against model and specification for all small forests x start nodes x styles x title/add_self/repr/join.",
+        "node rendering (str.format / callable) is a parameter",
+        "DESIGN.md §6 C16",
+    ),
 }
 
 PENDING_REASON = "check not built yet (work in progress; see DESIGN.md §9 order of work) — will be claimed once its model, theorems and correspondence exist"
